@@ -851,9 +851,14 @@ class RTCPeerConnection(AsyncIOEventEmitter):
                     self.__sctp.transport._set_role(media.dtls.role)
 
         # configure direction
-        for t in self.__transceivers:
-            if description.type in ["answer", "pranswer"]:
-                t._setCurrentDirection(and_direction(t.direction, t._offerDirection))
+        if description.type in ["answer", "pranswer"]:
+            for t in self.__transceivers:
+                # a transceiver which is not part of the offer being answered
+                # has no offer direction and keeps its current direction
+                if t._offerDirection is not None:
+                    t._setCurrentDirection(
+                        and_direction(t.direction, t._offerDirection)
+                    )
 
         # gather candidates
         await self.__gather()
